@@ -85,6 +85,8 @@ type Frame struct {
 	recoverNil bool
 	noInv      bool
 	entryPtr   *State
+	privStruct map[ssa.Value]string
+	privAlias  map[ssa.Value]string
 }
 
 type deferRec struct {
@@ -100,6 +102,7 @@ type loopInfo struct {
 	fams   map[string]Sort
 	all    bool
 	ordinal int
+	privAll bool // a closure is called in the loop: captured private locals may change
 }
 
 func (e *Enc) newFrame(fn *ssa.Function, depth int) *Frame {
@@ -216,6 +219,9 @@ func (f *Frame) loopEffects(li *loopInfo) {
 		for _, in := range b.Instrs {
 			switch x := in.(type) {
 			case *ssa.Store:
+				if f.storeToPrivate(x, li.fams) {
+					continue
+				}
 				P.storeEffect(f.e.U, tmp, x.Addr, x.Val.Type())
 			case *ssa.MapUpdate:
 				mt := x.Map.Type().Underlying().(*types.Map)
@@ -229,6 +235,9 @@ func (f *Frame) loopEffects(li *loopInfo) {
 				f.allocEffects(x.(ssa.Value), li.fams)
 			case ssa.CallInstruction:
 				P.callEffect(f.e.U, tmp, x, f.fn, callees)
+				if localClosure(x.Common().Value) != nil || f.findClosure(x.Common().Value) != nil {
+					li.privAll = true
+				}
 			}
 		}
 	}
@@ -727,7 +736,9 @@ func (f *Frame) guard(c *cursor, kind string, in ssa.Instruction, cond Term) {
 	if f.depth > 0 {
 		name = txt + "@" + f.fn.Name()
 	}
-	if !f.waivedK1(kind, txt) {
+	if f.isFault(kind) {
+		f.e.faultPoints = append(f.e.faultPoints, kind+"["+name+"]")
+	} else if !f.waivedK1(kind, txt) {
 		f.e.addOblig(kind, name, f.k1Props(), pos, c.reach, cond)
 	}
 	c.reach = f.e.define(f.pfx+"r", and(c.reach, cond))
@@ -1121,4 +1132,51 @@ func (P *Program) isMutator(fn *ssa.Function, key string) bool {
 		P.mutators[fn] = m
 	}
 	return m[key]
+}
+
+// storeToPrivate records a store into a private local as an effect on its
+// own state variable.
+func (f *Frame) storeToPrivate(x *ssa.Store, fams map[string]Sort) bool {
+	e := f.e
+	addr := x.Addr
+	fieldName := ""
+	var ft types.Type
+	if fa, ok := addr.(*ssa.FieldAddr); ok {
+		if a, ok := fa.X.(*ssa.Alloc); ok && f.privateAlloc(a) {
+			stT := a.Type().Underlying().(*types.Pointer).Elem()
+			st := stT.Underlying().(*types.Struct)
+			fieldName = sanitize(st.Field(fa.Field).Name())
+			ft = stT
+			base := "L." + f.pfx + sanitize(f.fn.Name()) + "." + a.Name()
+			fams[base+"."+fieldName] = e.structFieldSort(ft, fa.Field)
+			return true
+		}
+		return false
+	}
+	if a, ok := addr.(*ssa.Alloc); ok && f.privateAlloc(a) {
+		et := a.Type().Underlying().(*types.Pointer).Elem()
+		base := "L." + f.pfx + sanitize(f.fn.Name()) + "." + a.Name()
+		if stt, ok := et.Underlying().(*types.Struct); ok {
+			for i := 0; i < stt.NumFields(); i++ {
+				fams[base+"."+sanitize(stt.Field(i).Name())] = e.structFieldSort(et, i)
+			}
+			return true
+		}
+		fams[base] = e.U.sortOf(et, false)
+		return true
+	}
+	return false
+}
+
+func (f *Frame) isFault(kind string) bool {
+	sp := f.e.Spec
+	if sp == nil {
+		return false
+	}
+	for _, k := range sp.Faults {
+		if k == kind {
+			return true
+		}
+	}
+	return false
 }
